@@ -266,19 +266,57 @@ impl Queryable for Value {
     where
         T: Into<QueryPath>,
     {
-        convert_js_path(&path.into())
-            .ok()
-            .and_then(|p| self.pointer(p.as_str()))
+        let mut node = self;
+        for step in path_steps(&path.into()).ok()? {
+            node = match step {
+                PathStep::Name(name) => node.as_object()?.get(&name)?,
+                PathStep::Index(index) => node.as_array()?.get(index)?,
+            };
+        }
+        Some(node)
     }
 
     fn reference_mut<T>(&mut self, path: T) -> Option<&mut Self>
     where
         T: Into<QueryPath>,
     {
-        convert_js_path(&path.into())
-            .ok()
-            .and_then(|p| self.pointer_mut(p.as_str()))
+        let mut node = self;
+        for step in path_steps(&path.into()).ok()? {
+            node = match step {
+                PathStep::Name(name) => node.as_object_mut()?.get_mut(&name)?,
+                PathStep::Index(index) => node.as_array_mut()?.get_mut(index)?,
+            };
+        }
+        Some(node)
     }
+}
+
+enum PathStep {
+    Name(String),
+    Index(usize),
+}
+
+/// The member-name and index steps of a path made of root, name and index segments only.
+fn path_steps(path: &str) -> Parsed<Vec<PathStep>> {
+    let JpQuery { segments } = parse_json_path(path)?;
+    let mut steps = vec![];
+    for segment in segments {
+        match segment {
+            Segment::Selector(Selector::Name(name)) => {
+                steps.push(PathStep::Name(name.trim_matches(|c| c == '\'').to_string()));
+            }
+            Segment::Selector(Selector::Index(index)) if index >= 0 => {
+                steps.push(PathStep::Index(index as usize));
+            }
+            s => {
+                return Err(JsonPathError::InvalidJsonPath(format!(
+                    "Invalid segment: {:?}",
+                    s
+                )));
+            }
+        }
+    }
+    Ok(steps)
 }
 
 fn convert_js_path(path: &str) -> Parsed<String> {
